@@ -74,7 +74,8 @@ def _actor():
     if S is None:
         return None
     me = S.me()
-    return me.name if me is not None else None
+    # threads started by the program ('w7.f1') count as their process' actor
+    return me.name.split('.')[0] if me is not None else None
 
 
 def _wrap_module_attr(mod, name, make):
